@@ -310,6 +310,23 @@ T = {
  'C17-10': ('C17', GRPCGCP, 'UpdateClientConnState re-initialises when gb.cfg == nil || len(gb.scRefs) == 0', 'a later update while the pool is empty (all creations failed or all shut down): the configuration is replaced'),
  'C20-9': ('C20', GRPCGCP, 'gb.addrs store moved into helpers that the emptied-pool branch does not call', 'a non-first update that finds the pool empty: the connection is created from the previous list'),
  'C20-10': ('C20', GRPCGCP, 'push loops replaced by a walk over scRefList with a replacementOf lookup that never breaks', 'two refreshes in flight and a resolver update: a replacement is skipped and takes over with the old list'),
+ # ---- wave 5 (as wave 4; authors were told the descriptions of all earlier changes for their property)
+ 'C05-11': ('C05', GRPCGCP, 'recordSubConnState helper stores scStates[sc] = s before the caller tests whether the SubConn is known', 'two or more late reports (ending READY) for a removed/unknown SubConn, then a Pick: nil slot in the READY snapshot'),
+ 'C05-12': ('C05', GRPCGCP, 'regeneratePicker refills the backing array of the previous READY snapshot and nils the unused tail', 'READY set shrinks without TRANSIENT_FAILURE, then a Pick on the superseded picker: nil slot dereferenced'),
+ 'C10-6': ('C10', GRPCGCP, 'markResponsive helper resets deCalls with a plain store under ref.mu (deCallsInc uses atomic.AddUint32)', 'a response/refresh completion concurrent with a deadline-exceeded completion on the same channel (demo needs -race)'),
+ 'C10-7': ('C10', GRPCGCP, 'notify obtains gme.mes through an accessor that returns the map itself and ranges over it with no lock held', 'a monitor notification concurrent with UpdateMultiEndpoints: map iteration vs map write (demo needs -race)'),
+ 'C11-6': ('C11', GRPCGCP, 'keysFromMessage as a stateful keyWalker; the empty-repeated-field early exit does not restore depth', 'nested repeated fields where an element with an empty inner list is followed by a sibling: wrong keys or spurious error'),
+ 'C11-7': ('C11', GRPCGCP, 'leaf kind checked once (found[0]) for the whole fan-out; others converted with reflect.Value.String()', 'a fan-out whose later values are not strings (interface/oneof leaves): garbage keys instead of an error'),
+ 'C12-11': ('C12', GRPCGCP, 'SendMsg split; the creation error is stored and broadcast before cs.Lock()', 'stream creation fails while RecvMsg is between its state check and cond.Wait: lost wake-up'),
+ 'C12-12': ('C12', GRPCGCP, 'RecvMsg single exit applies status.FromContextError to the creation error too', 'a creation error with a status code: RecvMsg returns codes.Unknown instead of the creation error'),
+ 'C13-11': ('C13', ME, 'recovering current: switch target is the first available endpoint above it found while ranging over the map', 'a reorder that moves two available endpoints above a recovering current in one SetEndpoints call'),
+ 'C13-12': ('C13', ME, "completeSwitch checks the target's availability only when the current endpoint is still usable", 'delayed switch pending, target becomes unavailable and so does current: Current() moves to an unavailable endpoint while another is available'),
+ 'C16-12': ('C16', GRPCGCP, 'MultiEndpoint.current becomes *endpoint; the "let current recover" guard loses its exists test', 'an accepted update removes a recovering current endpoint while a lower-ranked one is available: Current() names a deleted pool'),
+ 'C16-13': ('C16', GRPCGCP, 'checkOptions merges the reject-empty-list loop into the collect loop and overwrites err each iteration', 'an update with an empty MultiEndpoint that is not the last in map order: accepted, pools of the kept configuration deleted'),
+ 'C18-7': ('C18', PROBER, 'payloadHash helper takes a hash.Hash from a sync.Pool and resets it only on the error path', 'the second and later payloads of a process: hash covers earlier payloads too'),
+ 'C18-8': ('C18', PROBER, 'parseT4T7Latency single exit: a malformed first gfet4t7 entry is remembered and scanning continues', 'a malformed gfet4t7 entry followed by a well-formed one: the later value is reported'),
+ 'C19-7': ('C19', CSUM, 'Marshal computes the CRC with a digest shared by the codec value; the mutex covers only its lazy creation', 'two overlapping Marshal calls on one codec: checksum of another payload (demo uses 16 goroutines)'),
+ 'C19-8': ('C19', CSUM, 'Unmarshal verifies the checksum, looking for the field in the last six bytes first', 'a payload whose last six bytes look like field 2047/fixed32 (inside a bytes field): wrongly rejected'),
 }
 
 ENV = dict(os.environ, GOFLAGS='-mod=mod', GOPROXY='off', GOSUMDB='off', GOTOOLCHAIN='local')
@@ -317,6 +334,31 @@ ENV = dict(os.environ, GOFLAGS='-mod=mod', GOPROXY='off', GOSUMDB='off', GOTOOLC
 
 def sh(cmd, **kw):
     return subprocess.run(cmd, shell=True, text=True, capture_output=True, env=ENV, **kw)
+
+
+RACE = {'C10-2', 'C10-6', 'C10-7'}
+
+
+def wave_of():
+    """seed id -> wave number, from the '# ---- wave N' markers in the table above"""
+    w, out = 1, {}
+    for line in open(__file__):
+        m = re.match(r"\s*# ---- wave (\d+)", line)
+        if m:
+            w = int(m.group(1))
+        m = re.match(r"\s*'(C\d+-\d+)': \(", line)
+        if m:
+            out[m.group(1)] = w
+    return out
+
+
+WAVE = wave_of()
+
+
+def author_report(sid, prop):
+    w = WAVE.get(sid, 1)
+    name = '%s.md' % prop if w == 1 else '%s-wave%d.md' % (prop, w)
+    return '../reports/' + name if os.path.exists(os.path.join(VERIF, 'seeded/reports', name)) else None
 
 
 def run_check(prop, patch):
@@ -357,9 +399,9 @@ def main():
             'change': change,
             'needs_to_manifest': needs,
             'files': {'patch': 'patch.diff', 'demonstration': 'demo_test.go.txt',
-                      'author_report': '../reports/%s.md' % prop if os.path.exists(os.path.join(VERIF, 'seeded/reports/%s.md' % prop)) else None},
+                      'author_report': author_report(sid, prop)},
             'demonstration': {
-                'how': 'copy demo_test.go.txt to %s/zz_seed_demo_test.go in a scratch worktree of /repo; go test -count=1 -vet=off -run TestZZSeedDemo .%s' % (pkg, ' (-race for C10-2)' if sid == 'C10-2' else ''),
+                'how': 'copy demo_test.go.txt to %s/zz_seed_demo_test.go in a scratch worktree of /repo; go test -count=1 -vet=off -run TestZZSeedDemo .%s' % (pkg, ' (with -race)' if sid in RACE else ''),
                 'without_change': 'passes',
                 'with_change': 'fails',
             },
